@@ -2687,6 +2687,36 @@ def vspace_pairs_check():
                             fails.append("scalar_mul / add disagree on leaf dtypes for %s" % lab)
                     except Exception as e:
                         fails.append("vector-space operation raised on %s: %s" % (lab, exc_sig(e)))
+        # every real / complex dtype width, several shapes, against NumPy itself: <x,y> = Re(vdot), covector = conj,
+        # real dimension n (real) or 2n (complex), complete orthonormal basis, zeros/ones in the space's dtype
+        rs_ = onp.random.RandomState(5)
+        for dt in (onp.float16, onp.float32, onp.float64, onp.longdouble, onp.complex64, onp.complex128, onp.clongdouble):
+            cplx = onp.issubdtype(dt, onp.complexfloating)
+            tol = 5e-2 if dt is onp.float16 else (1e-5 if dt in (onp.float32, onp.complex64) else 1e-12)
+            for shp in ((2,), (), (0,), (2, 2)):
+                n += 1
+                mk = lambda: ((rs_.randn(*shp) + (1j * rs_.randn(*shp) if cplx else 0.0)) * onp.ones(shp)).astype(dt) if shp != () else onp.array(rs_.randn() + (1j * rs_.randn() if cplx else 0.0)).astype(dt)
+                x, y = mk(), mk()
+                lab = "%s %s" % (onp.dtype(dt).name, shp)
+                try:
+                    vs = vspace(x)
+                    ip = vs.inner_prod(x, y)
+                    ref = onp.real(onp.vdot(x.astype(onp.clongdouble if cplx else onp.longdouble), y.astype(onp.clongdouble if cplx else onp.longdouble)))
+                    if onp.iscomplexobj(ip) or abs(float(ip) - float(ref)) > tol * max(1.0, abs(float(ref))):
+                        fails.append("inner_prod on %s is %r, Re(vdot) is %r" % (lab, ip, ref))
+                    if int(vs.size) != int(x.size) * (2 if cplx else 1):
+                        fails.append("size of the %s space is %r" % (lab, vs.size))
+                    basis = list(vs.standard_basis())
+                    if len(basis) != int(vs.size):
+                        fails.append("standard_basis of the %s space has %d members, size is %r" % (lab, len(basis), vs.size))
+                    if not onp.array_equal(onp.asarray(vs.covector(x)), onp.conj(x)):
+                        fails.append("covector on %s is not the conjugate" % lab)
+                    if onp.asarray(vs.zeros()).dtype != onp.dtype(dt) or onp.asarray(vs.ones()).dtype != onp.dtype(dt):
+                        fails.append("zeros()/ones() of the %s space have dtype %s / %s" % (lab, onp.asarray(vs.zeros()).dtype, onp.asarray(vs.ones()).dtype))
+                    if x.size and not (float(vs.inner_prod(x, x)) > 0):
+                        fails.append("<x,x> is not positive on %s" % lab)
+                except Exception as e:
+                    fails.append("vector-space operation raised on %s: %s" % (lab, exc_sig(e)))
         f16 = onp.array([1.0, 2.0], dtype=onp.float16)
         n += 1
         if vspace(f16).zeros().dtype != onp.float16 or onp.asarray(vspace(f16).add(f16, f16)).dtype != onp.float16:
